@@ -3,12 +3,12 @@ CONSTANTS
   MaxObj = 3
   MaxThr = 3
   MaxStack = 1
-  MaxSteps = 7
-  Acts = {"Alloc", "Unroot", "Spawn", "Collect", "Push", "Pop", "Cell", "HostMove"}
+  MaxSteps = 9
+  Acts = {"Alloc", "Unroot", "Spawn", "Collect", "Push", "Pop"}
   TwoVMs = FALSE
   Emit = FALSE
   Traps = {}
-  Mutant = "none"
+  Mutant = "sweepgap"
 VIEW View
 INVARIANTS TypeOK Isolation NoDangling
 PROPERTIES CollectExact CloneFaithful
